@@ -135,11 +135,12 @@ options_getitem.mutates_recv = False
 
 
 def decode_stub(ev, args, kwargs, node):
-    """bytes.decode(charset) with a client-chosen charset: text, UnicodeDecodeError or LookupError (A-bytes)"""
+    """bytes.decode(charset) with a client-chosen charset: text, a ValueError (UnicodeDecodeError, but also the plain
+    UnicodeError of punycode / idna and the plain ValueError for a NUL in the name) or LookupError (A-bytes, validated)"""
     USED.add("A-bytes")
     k = ev.st.choose([z3.BoolVal(True)] * 3, force_record=True)
     if k == 1:
-        raise PyRaise("UnicodeDecodeError", None, getattr(node, "lineno", 0))
+        raise PyRaise("ValueError", None, getattr(node, "lineno", 0))
     if k == 2:
         raise PyRaise("LookupError", None, getattr(node, "lineno", 0))
     return ev.st.fresh(Str, "decoded")
